@@ -55,6 +55,7 @@ package recover
 //@   -- exists or not, and it never touches the session or cookies
 //@   ensures[C16] recover_same: (each Redirect(?ro) => ro.Code == 307 && ro.RedirectPath == r.Config.Paths.RecoverOK &&
 //@           ro.Success == loc(r.Authboss, TxtRecoverInitiateSuccessFlash) && ro.Failure == "" && ro.FollowRedirParam == false) &&
-//@       !emits Sess.Put(_, _) && !emits Sess.Del(_) && !emits Cook.Put(_, _) && !emits Cook.Del(_)
+//@       !emits Sess.Put(_, _) && !emits Sess.Del(_) && !emits Cook.Put(_, _) && !emits Cook.Del(_) &&
+//@       !emits HeaderSet(_, _, _) && !emits WriteHeader(_, _) && !emits Write(_, _) && !emits HTTPRedirect(_, _, _)
 //@   ensures[C16] unknown_account_fakes_success: each Store.Load(_) -> (_, ?le) => le == ErrUserNotFound ==> (after Redirect(_) && !emits Respond(_, _, _))
 //@   ensures[C16] known_account_same_answer: (result == nil && !emits Respond(_, _, _) && !(emits Fire("Before", _, _, _, _) -> (?hd, _) :: hd)) ==> emits Redirect(_)
